@@ -175,6 +175,32 @@ def run(prog: Program, col: Collector, tier: str, refs: Optional[Refs] = None, c
     col.rule("R16.15", "deep_type and its handlers are not memoised on the value (equal values can have different types: 1 == 1.0 == True)", floor=3)
     _deep_type_not_memoised(prog, col, refs)
 
+    # ---------------------------------------------------------------- R16.16 the builtin issubclass is asked about classes only
+    col.rule("R16.16", "the oracle's fallback to the builtin issubclass passes a class: a subscripted typing generic is replaced by its origin first", floor=1)
+    di = prog.funcs.get("funsor.typing::deep_issubclass")
+    if di is None:
+        raise AnalysisError("anchor funsor.typing::deep_issubclass not found")
+    sub_p = di.positional[0]
+    handles_generics = any(isinstance(c, ast.Call) and norm(c.func).rsplit(".", 1)[-1] in ("get_origin", "get_args") and c.args and norm(c.args[0]) == sub_p for c in ast.walk(di.node))
+    for c in ast.walk(di.node):
+        if not (isinstance(c, ast.Call) and isinstance(c.func, ast.Name) and c.func.id == "issubclass" and len(c.args) == 2):
+            continue
+        a0 = c.args[0]
+        construct = f"{di.fq}::{norm(c)}"
+        unwrapped_inline = any(isinstance(y, ast.Call) and norm(y.func).rsplit(".", 1)[-1] == "get_origin" for y in ast.walk(a0))
+        # a re-binding `sub = get_origin(sub) or sub` (possibly under `if not isinstance(sub, type):`) earlier in the same block chain
+        rebinds = [st for st in ast.walk(di.node) if isinstance(st, ast.Assign) and norm(st.targets[0]) == norm(a0) and st.lineno < c.lineno
+                   and any(isinstance(y, ast.Call) and norm(y.func).rsplit(".", 1)[-1] == "get_origin" for y in ast.walk(st.value))]
+        guarded = any(isinstance(g_, ast.If) and "isinstance" in norm(g_.test) and norm(a0) in norm(g_.test) and "type" in norm(g_.test) and any(c is z for st_ in g_.body for z in ast.walk(st_))
+                      for g_ in di.module.ancestors(c))
+        if unwrapped_inline or rebinds or guarded:
+            col.ok(construct, "the argument is a class: typing generics were replaced by their origin", di.loc(c))
+        elif isinstance(a0, ast.Name) and a0.id == sub_p and handles_generics:
+            col.violation(construct, f"`{sub_p}` reaches the builtin issubclass as it was passed in; elsewhere the function treats it as a possibly subscripted typing generic "
+                          "(get_origin / get_args), and issubclass(Tuple[int], object) raises TypeError instead of answering: the relation has no verdict for a parametrised Tuple or "
+                          "FrozenSet against a plain class, although Tuple[int] <= tuple <= object", di.loc(c))
+        else:
+            col.unresolved(construct, f"argument `{norm(a0)}` not recognised", di.loc(c))
     # ---------------------------------------------------------------- R16.14 exception handlers of the oracle do not decide
     col.rule("R16.14", "an exception handler inside the subtype oracle re-raises or asks again - it never answers with a constant", floor=2)
     _oracle_handlers_do_not_decide(prog, col, refs, cat)
@@ -674,6 +700,10 @@ def _covariant_recursion(prog: Program, col: Collector, refs: Refs, cat: Catalog
                 if callee == "builtins.issubclass" and len(n.args) == 2:
                     a, b = arg_ts[0], arg_ts[1]
                     def nominal(e, params_side):
+                        if isinstance(e, ast.IfExp):  # `x if isinstance(x, type) else get_origin(x) or x`
+                            return nominal(e.body, params_side) and nominal(e.orelse, params_side)
+                        if isinstance(e, ast.BoolOp) and isinstance(e.op, ast.Or):
+                            return all(nominal(v_, params_side) for v_ in e.values)
                         return (isinstance(e, ast.Name) and e.id in sides) or (isinstance(e, ast.Call) and refs.resolve(e.func) == "funsor.typing.get_origin")
                     good = CLS not in a and SUB not in b and nominal(n.args[0], SUB) and nominal(n.args[1], CLS)
                     # a nominal check of the candidate's origin against a fixed class (frozenset) has an untainted right side
